@@ -525,8 +525,13 @@ func (m Model) opsFieldsCx(ops []Op, where string, st *evState, cx *ctxEffects) 
 				out = append(out, ExpField{ValidText(o.K), x})
 				out = append(out, extra...)
 			}
-		case "fieldsslice":
+		case "fieldsbad":
+			// documented: only map[string]interface{} and []interface{} are accepted
+		case "fieldsslice", "fieldsodd":
 			for _, o := range v.Ops {
+				if o.BadKey {
+					continue // a pair whose key is not a string is ignored
+				}
 				x, extra := m.fieldsVal(o.V, st)
 				out = append(out, ExpField{ValidText(o.K), x})
 				out = append(out, extra...)
